@@ -1,4 +1,5 @@
 """Helpers shared by the grammar-based property checks."""
+import re
 from .core import Facts, Report, site
 from .extract import extract
 from .grammar_check import compare, code_seq, spec_seq, semantic_conds
@@ -48,6 +49,11 @@ def all_parser_fns(F):
     for f in F.hir_fns():
         o = f.get("output", "")
         if f["dk"] in ("Fn", "AssocFn") and o.startswith("core::result::Result<(&") and "nom::internal::Err" in o and "tls_records_parser" not in f["path"]:
+            # a private generic helper that takes a parser / constructor / predicate as a parameter has no grammar of its
+            # own: it is analysed where it is called, with the actual function inlined
+            fn_param = any(("fn(" in (p.get("ty") or "")) or ("impl Fn" in (p.get("ty") or "")) or re.fullmatch(r"[A-Z]\w?", p.get("ty") or "") for p in f["params"])
+            if fn_param and not f.get("exported"):
+                continue
             out.append(f)
     return out
 
